@@ -38,7 +38,7 @@ static void run_case(const std::vector<std::string>& t)
     argv.push_back(const_cast<char*>(a.c_str()));
   argv.push_back(nullptr);
   int argc = (int)args.size();
-  sg4::Engine e(&argc, argv.data());
+  auto& e    = *new sg4::Engine(&argc, argv.data()); // never destroyed: the child _exit()s
   auto* zone = e.get_netzone_root();
   double res = -1;
 
